@@ -29,9 +29,9 @@ vars == <<l, g, h, dg, dh, vs, viol, drift, stats>>
    While a switch is FALSE, a result that deviates from the property in EXACTLY that way (it satisfies the equation once the
    missing part is supplied) is counted in stats (sf_other_dropped / sf_not_conjugated / copy_incomplete); any other deviation is a
    violation as always.  Set a switch to TRUE once the corresponding fix is applied to /repo: the deviation is then a violation. *)
-StrictAppendSF == FALSE
-StrictAdjointSF == FALSE
-StrictCopy == FALSE
+StrictAppendSF == TRUE
+StrictAdjointSF == TRUE
+StrictCopy == TRUE
 (* ---------------------------------------------------------------------------------------------------------- *)
 
 Init == l = 1 /\ g = EmptyG /\ h = EmptyG /\ dg = <<>> /\ dh = <<>> /\ vs = {} /\ viol = <<>> /\ drift = <<>>
